@@ -242,7 +242,8 @@ class Model:
                 return DEFAULT_SENTINEL
             raise ModelError("KeyError", "inject " + key)
 
-        inst.data = comp_data(cd["name"], kw, inj, cd["injects"], cd.get("echo_id"), ("ID", inst.idx))
+        inst.data = comp_data(cd["name"], kw, inj, cd["injects"], cd.get("echo_id"), ("ID", inst.idx),
+                              cd.get("label"))
 
     # ------------------------------------------------------------------ fills
     def discover(self, bk, body, env, owner, prov, ck):
